@@ -13,7 +13,7 @@ def git(*a, **k):
     return subprocess.run(["git", "-C", "/repo"] + list(a), text=True, capture_output=True, **k)
 old = git("rev-parse", "HEAD").stdout.strip()
 assert git("status", "--porcelain").stdout.strip() == "", "/repo not clean"
-commits, mds = {}, {}
+commits, mds, skipped = {}, {}, []
 for n in nums:
     patch = os.path.join(wt, "repo_fixes", "%s-%s.patch" % (pid, n))
     md = open(patch[:-6] + ".md").read().strip()
@@ -25,7 +25,12 @@ for n in nums:
         first = m.group(0).strip() if m else "fix: " + first
     r = git("apply", "--index", patch)
     if r.returncode:
-        print("patch %s does not apply: %s" % (n, r.stderr[:400])); git("reset", "--hard", old); sys.exit(1)
+        r = git("apply", "--index", "--3way", patch)
+        if r.returncode or git("diff", "--name-only", "--diff-filter=U").stdout.strip():
+            print("SKIPPED patch %s: does not apply to the current head (%s)" % (n, r.stderr.strip()[:300]))
+            git("reset", "-q", "--hard", "HEAD"); skipped.append(n); continue
+        if git("diff", "--cached", "--quiet").returncode == 0:
+            print("SKIPPED patch %s: already contained in the current head" % n); skipped.append(n); continue
     body = re.sub(r"\s+\n", "\n", rest.strip())
     r = git("commit", "-q", "-m", first, "-m", body[:3000])
     assert r.returncode == 0, r.stderr
@@ -40,7 +45,10 @@ d = json.load(open(kf))
 for f in d["findings"]:
     if f.get("commit") == "PENDING":
         n = override.get(f["id"]) or next((k for k in nums if f["id"] in mds[k]), None) or nums[0]
+        if n not in commits:
+            print("  %s stays PENDING (patch %s skipped)" % (f["id"], n)); continue
         f["commit"] = commits[n]
         f["what"] = f["what"].replace("PENDING", commits[n])
         print("  %s -> %s (patch %s)" % (f["id"], commits[n], n))
 json.dump(d, open(kf, "w"), indent=1, ensure_ascii=False)
+print("skipped:", skipped)
